@@ -129,4 +129,33 @@ theorem ser_de_ser (t t' : Tree) (b rest' : Bytes) (c c' : Ctr)
       rw [hw]
       simp only [hser]
 
+/-! ### parts of C17 that are stated but not proved here
+
+They are checked on the implementation by the `backref_c17` oracle (`ser_br_never_grows`,
+`ser_br_canonical`, `ser_br_total`) and byte for byte against this model by the `backref_ser`
+stream. -/
+
+/-- *Never grows* (not proved).  What is proved is its core inequality, the last conjunct of
+`find_path_sound`: a back-reference is emitted only if `atom_length_bits(path bits) ≤
+serialized_length(node) - 1`.  Missing: (a) `atom_length_bits(|path| + 1)` is the length of
+`write_atom`'s output for the path bytes (needs "the single path byte is < 0x80 iff the path has
+fewer than 7 steps", a byte-level fact in the style of `Lemmas/BackrefCodec.lean`), (b) the sum over
+the write stack, (c) `Classic.cacheSerializedLength = |ser|` (C15 `len_cache`). -/
+def NeverGrows : Prop :=
+  ∀ (t : Tree) (b : Bytes), t.atomsBelow (2 ^ 32) → nodeToBytesBackrefs t = .ok b →
+    b.length ≤ (Classic.serSpec t).length
+
+/-- *Output is canonical* (not proved): needs the `is_canonical_serialization` step for a
+back-reference token on top of C15's `isCanonicalGo_atom`. -/
+def OutputCanonical : Prop :=
+  ∀ (t : Tree) (b : Bytes), nodeToBytesBackrefs t = .ok b → Classic.isCanonicalSerialization b = .ok true
+
+/-- *The serializer is total* (not proved): `node_to_bytes_backrefs` returns bytes for every tree
+whose atoms are shorter than 2^34 bytes; i.e. the `u32` reference counts of `ReadCacheLookup::pop`
+never underflow, `pop` never meets an empty stack, the `assert!` on the operation stack holds and
+the search fuel `max_path_length + 2` suffices.  (`de_br_ser_br` is stated for whatever the
+serializer returns, so it does not depend on this.) -/
+def SerTotal : Prop :=
+  ∀ (t : Tree), t.atomsBelow (2 ^ 34) → ∃ b, nodeToBytesBackrefs t = .ok b
+
 end Clvm.Props.C17
